@@ -29,8 +29,8 @@ def is_option(ty):
     return ty.startswith("std::option::Option<")
 
 
-def str_consts(fx, f, only_compared=False):
-    b = body_of(fx, f["key"])
+def str_consts(fx, f, only_compared=False, body=None):
+    b = body if body is not None else body_of(fx, f["key"])
     out = set()
     if only_compared:
         for i, t in b.calls():
@@ -130,8 +130,11 @@ def check_tables(ctx, S, RULE):
     vis = [g for g in fx.doc["fns"] if g["path"].startswith("<models::layout::rule::ArtifactRuleVisitor as") and g["path"].endswith("::visit_seq")]
     asref = [g for g in fx.doc["fns"] if g["path"] == "<models::layout::rule::Artifact as std::convert::AsRef<str>>::as_ref"]
     if rs and len(vis) == 1 and len(asref) == 1:
-        emitted = {x for x in str_consts(fx, rs) | str_consts(fx, asref[0]) if re.match(r"^[A-Z]+$", x)}
-        accepted = {x for x in str_consts(fx, vis[0], only_compared=True) if re.match(r"^[A-Z]+$", x)}
+        # in the REGION of each (private helpers such as a keyword() table or a token reader inlined)
+        rs_b = ctx.region(None, policy="private", key=rs["key"])
+        vis_b = ctx.region(None, policy="private", key=vis[0]["key"])
+        emitted = {x for x in str_consts(fx, rs, body=rs_b) | str_consts(fx, asref[0]) if re.match(r"^[A-Z]+$", x)}
+        accepted = {x for x in str_consts(fx, vis[0], only_compared=True, body=vis_b) if re.match(r"^[A-Z]+$", x)}
         ctx.inst(RULE, "ArtifactRule keyword tables", emitted == accepted == RULE_TOKENS,
                  "emitted %s; accepted %s" % (sorted(emitted), sorted(accepted)), rs["at"])
     else:
